@@ -93,11 +93,11 @@ def run(ctx):
     # 2. generated histories
     quick = ctx.tier == "quick"
     plans = [
-        ("systematic", "promo,ep", 6 if quick else 12, 9000 if quick else 60000, 3 if quick else 4),
+        ("systematic", "promo,ep", 6 if quick else 14, 9000 if quick else 150000, 3 if quick else 5),
         ("systematic", "castle,check,crowd", 2 if quick else 6, 6000 if quick else 40000, 3 if quick else 4),
-        ("masked", "promo,ep,castle", 2 if quick else 6, 6000 if quick else 40000, 3),
+        ("masked", "promo,ep,castle", 2 if quick else 14, 6000 if quick else 100000, 4),
         ("engine", "", 1 if quick else 4, 6000 if quick else 40000, 2),
-        ("random", "", 3 if quick else 10, 8000 if quick else 60000, 4),
+        ("random", "", 3 if quick else 14, 8000 if quick else 150000, 6),
     ]
     jobs = []
     for mode, tags, shards, events, depth in plans:
